@@ -445,12 +445,12 @@ def iterselectusingcontext(table, query):
         return  # no data rows
     for nxt in it:
         if query(prv, cur, nxt):
-            yield cur
+            yield tuple(cur)
         prv = cur
         cur = nxt
     # handle last row
     if query(prv, cur, None):
-        yield cur
+        yield tuple(cur)
 
 
 def facet(table, key):
